@@ -908,6 +908,10 @@ def run(ctx: core.Ctx):
                 dv = dict(dv, role=role_of(dv["var"], bc["recv_name"], bc["other_name"]))
             if dv["kind"] == "existing-changed":
                 sig = signature(culprit, dv["role"], dv["fields"], dv["hint_only"])
+                if dv["var"] not in model_changed:
+                    # the model (which follows the CURRENT source's summary) does not predict this change: it is not
+                    # one of the staged findings, whatever its shape
+                    sig += "/not-predicted-from-the-source-summary"
                 what = f"{culprit}() changed what an existing DataFrame ({dv['role']}) reports: {dv['fields']}"
             elif dv["kind"] == "repeat-differs":
                 sig = f"C04/repeat-differs:{culprit}:{'+'.join(dv['fields'])}"
@@ -1017,8 +1021,12 @@ def replay(ctx: core.Ctx, rp: dict) -> int:
         print(f"  {dv['kind']}: {dv['var']} ({dv['role']}) fields={dv['fields']}")
         for f in dv["fields"]:
             if isinstance(dv["reference"], dict):
-                print(f"     {f}: reference = {dv['reference'].get(f)!r}")
-                print(f"     {f}: after     = {dv['after'].get(f)!r}")
+                a, b = dv["reference"].get(f), dv["after"].get(f)
+                if isinstance(a, str) and isinstance(b, str):
+                    i = next((k for k, (x, y) in enumerate(zip(a, b)) if x != y), min(len(a), len(b)))
+                    a, b = "..." + a[max(0, i - 50): i + 110], "..." + b[max(0, i - 50): i + 110]
+                print(f"     {f}: reference = {a!r}")
+                print(f"     {f}: after     = {b!r}")
     if not sc["devs"]:
         print("  no existing DataFrame changed; nothing reached the engine during a transformation")
     return 0
